@@ -223,6 +223,16 @@ def target_fit_identifiers():
             def generate_element_identifiers(self, running):
                 asked.append(running)
                 return {e1: 0, e2: 1, e3: 10}
+
+            # the other ways of listing elements do NOT give what the fit needs: get_elements() leaves out the elements inside the
+            # sub-circuits of containers (here e3), and numbering them by position differs from the circuit's own numbering
+            def get_elements(self, recursive=True):
+                asked.append("get_elements")
+                return [e1, e2]
+
+            def get_connections(self, recursive=True):
+                asked.append("get_connections")
+                return []
         made = []
 
         class FitIdentifiers:
@@ -419,4 +429,6 @@ def target_parameters_table():
 
 
 def targets():      # noqa: F811
-    return _targets_before_table() + [target_parameters_table()]
+    from . import purity
+    pick = purity.target_default_pickling(["circuit/circuit", "circuit/base", "circuit/series", "circuit/parallel", "circuit/transmission_line_model", "data/data_set", "analysis/fitting"])
+    return _targets_before_table() + [target_parameters_table(), pick]
